@@ -21,6 +21,7 @@ import (
 
 	"github.com/oxia-db/oxia/proto"
 	"github.com/oxia-db/oxia/server/kv"
+	"github.com/oxia-db/oxia/server/wal"
 )
 
 // Verification harness access to the secondary-index read paths used by the leader controller.
@@ -67,4 +68,15 @@ func VerifLiveSessions(c LeaderController) []int64 {
 		ids = append(ids, int64(k))
 	}
 	return ids
+}
+
+// VerifLeaderWal returns the write-ahead log of a leader controller.
+func VerifLeaderWal(c LeaderController) wal.Wal { return c.(*leaderController).wal }
+
+// VerifFollowerWal returns the write-ahead log of a follower controller.
+func VerifFollowerWal(c FollowerController) wal.Wal {
+	fc := c.(*followerController)
+	fc.Lock()
+	defer fc.Unlock()
+	return fc.wal
 }
